@@ -24,7 +24,8 @@
    counting, __del__ and weakref.finalize are the Python runtime; "the last reference was dropped" is the input
    event [ODropped g].  The iteration order of a Python set of watched names is an input as well: a unit carries
    its ident set as a *list* in iteration order, so hash-seed dependence is quantification over lists.
-   Service names are one per function generation (shared names and reference counts are C12's subject). *)
+   A service name may be declared by several functions; the reference count, the refusal of a registration coming from
+   another context and the handler a call reaches are modelled (svc_register / svc_remove / handler). *)
 From Coq Require Import List NArith Bool.
 From PV Require Import Common.Util Gen.LedgerConsts.
 Import ListNotations.
@@ -213,6 +214,7 @@ Definition set_zombie W x := {| w_led := w_led W; w_funcs := w_funcs W; w_active
 Definition set_running W x := {| w_led := w_led W; w_funcs := w_funcs W; w_active := w_active W; w_delayed := w_delayed W; w_pending := w_pending W; w_zombie := w_zombie W; w_running := x; w_starting := w_starting W; w_hdl := w_hdl W; w_auto := w_auto W; w_next := w_next W; w_log := w_log W |}.
 Definition set_starting W x := {| w_led := w_led W; w_funcs := w_funcs W; w_active := w_active W; w_delayed := w_delayed W; w_pending := w_pending W; w_zombie := w_zombie W; w_running := w_running W; w_starting := x; w_hdl := w_hdl W; w_auto := w_auto W; w_next := w_next W; w_log := w_log W |}.
 Definition set_hdl W x := {| w_led := w_led W; w_funcs := w_funcs W; w_active := w_active W; w_delayed := w_delayed W; w_pending := w_pending W; w_zombie := w_zombie W; w_running := w_running W; w_starting := w_starting W; w_hdl := x; w_auto := w_auto W; w_next := w_next W; w_log := w_log W |}.
+Definition set_next W x := {| w_led := w_led W; w_funcs := w_funcs W; w_active := w_active W; w_delayed := w_delayed W; w_pending := w_pending W; w_zombie := w_zombie W; w_running := w_running W; w_starting := w_starting W; w_hdl := w_hdl W; w_auto := w_auto W; w_next := x; w_log := w_log W |}.
 Definition set_auto W x := {| w_led := w_led W; w_funcs := w_funcs W; w_active := w_active W; w_delayed := w_delayed W; w_pending := w_pending W; w_zombie := w_zombie W; w_running := w_running W; w_starting := w_starting W; w_hdl := w_hdl W; w_auto := x; w_next := w_next W; w_log := w_log W |}.
 
 Definition all_units (W : world) : list unit_ := flat_map f_units (w_funcs W).
@@ -293,7 +295,8 @@ Definition dm_begin (cfg : deviations) (W : world) (f : func) : world :=
   | Some _ =>
       let W1 := fold_left dec_unit_start (firstn (f_pos f) (f_units f)) W0 in
       if svc_refused W1 f then
-        let W2 := fold_left (dec_unit_stop cfg) (firstn (f_pos f) (f_units f)) W1 in
+        (* `for started_dec in started: await self._stop_decorator(started_dec)`, status INVALID *)
+        let W2 := fold_left (stop_if_running cfg) (f_units f) W1 in
         set_active W2 (deln (f_gen f) (w_active W2))
       else let W2 := svc_register W1 f in set_starting W2 (addn (f_gen f) (w_starting W2))
   end.
@@ -380,7 +383,9 @@ Definition define (cfg : deviations) (c : N) (newsys : bool) (s : fspec) (W : wo
   let Wf := {| w_led := w_led W; w_funcs := w_funcs W ++ [f]; w_active := w_active W; w_delayed := w_delayed W;
                w_pending := w_pending W; w_zombie := w_zombie W; w_running := w_running W; w_starting := w_starting W;
                w_hdl := w_hdl W; w_auto := w_auto W; w_next := nxt; w_log := w_log W |} in
-  if negb newsys && svc_refused Wf f then Wf      (* legacy trigger_init raised ValueError: nothing registered, nothing started *)
+  (* legacy trigger_init raised ValueError: nothing is registered, no TrigInfo exists, the function is not registered in
+     its context: for pyscript's book-keeping this function object does not exist (only its ids are used up) *)
+  if negb newsys && svc_refused Wf f then set_next W nxt
   else
     (* legacy registers the service inside trigger_init; the new @service decorator registers in start() *)
     let Ws := if newsys then Wf else svc_register Wf f in
